@@ -42,13 +42,22 @@ def run(ck):
       combos = [(thr, VARIANTS[(i + k) % 6], scheds[k::4], SHAPES[(i + k) % len(SHAPES)], bool((i + k) % 2))
                 for k, thr in enumerate(THRS)]
       combos.append(([0.1, 1e30][i % 2], VARIANTS[[1, 5][(i // 2) % 2]], scheds[(i % 4)::4], SHAPES[0], True))
+      # ... and one that routes the roots through the LOBPCG-deflated Newton iteration (statistics of size
+      # 12: below ~11 the LOBPCG kernel itself refuses the matrix - open C07 finding; the vector parameter keeps
+      # its statistic rank deficient, where LOBPCG falls back to no deflation), with and without ridge,
+      # where the error figure that reaches the gate is the re-verification against the ORIGINAL matrix
+      combos.append(([1e30, 0.1][i % 2], (False, [0.0, 1e-6][(i // 2) % 2], True, "SGD", 2),
+                     scheds[((i + 1) % 4)::4], [(12,), (12, 12)], False))
     else:
       combos = [(t, v, scheds, SHAPES[(i + a + b) % len(SHAPES)], bool((a + b) % 2))
                 for a, t in enumerate(THRS) for b, v in enumerate(VARIANTS)]
-    for (thr, (eigh, eps, rel, graft), sub, shapes, merge) in combos:
-      o = {"mode": c["mode"], "S": c["S"], "P": c["P"], "Start": c["Start"], "thr": thr, "eigh": eigh,
+    for (thr, variant, sub, shapes, merge) in combos:
+      eigh, eps, rel, graft = variant[:4]
+      o = {"lobpcg": variant[4] if len(variant) > 4 else 0, "mode": c["mode"], "S": c["S"], "P": c["P"], "Start": c["Start"], "thr": thr, "eigh": eigh,
            "matrix_epsilon": eps, "relative_eps": rel, "graft": graft, "beta1": 0.5, "beta2": 0.75,
            "D": 1, "merge": merge}
+      if o["lobpcg"]:
+        o["block_size"] = 16          # one 12x12 statistic per axis (the LOBPCG kernel needs 5 k < n)
       nchunk = 1 if quick else 3
       for q in range(nchunk):
         jobs.append({"o": o, "shapes": shapes, "schedules": sub[q::nchunk],
